@@ -13,14 +13,8 @@ import time
 from . import _sched_sim as X
 
 PROPERTY = 'C01'
-BOUND = (
-    'real schedule/farm on synthetic engines: quick = 11 curated DAGs (<=4 algorithms, task/analysis mixes) x '
-    '{1 target/1 worker, 2 targets/2 workers}, every event sequence of length <= 5 (states merged when the '
-    'concrete scheduler+farm state coincides) plus seeded random histories of length 7..12; thorough = every '
-    'DAG of <= 4 topologically numbered algorithms x every task/analysis assignment (1098 graphs) x 2 targets '
-    'x 2 workers, sequences of length <= 7 under a per-graph transition cap, plus random histories of length 14'
-)
-CLAUSES = ['C01.upstream-idle', 'C01.analysis-upstream-idle', 'C01.put-matches-release']
+BOUND = X.BOUND_TEXT
+CLAUSES = ['C01.upstream-idle', 'C01.analysis-upstream-idle']
 
 
 class Mon(X.Monitor):
@@ -65,16 +59,6 @@ class Mon(X.Monitor):
                             'expected': 'neither %s nor __all__ pending/executing upstream' % t,
                         }
                     )  # fmt: skip
-        # the two observation points must agree: what was put is what was released (as units)
-        if sorted(set(puts)) != sorted(set(released)) and not rec.get('exception'):
-            out.append(
-                {
-                    'clause': 'C01.put-matches-release',
-                    'signature': 'task-messages-differ-from-released-units',
-                    'observed': {'released': sorted(released), 'put': sorted(puts)},
-                    'expected': 'farm._put called for exactly the released units',
-                }
-            )
         return out
 
 
@@ -82,66 +66,15 @@ def _job(job):
     return X.explore_job(job, Mon)
 
 
-def _jobs(tier, seed, deadline):
-    jobs = []
-    cfg = {'run_all': False, 'timers': False}
-    wcfg = {'run_all': True, 'timers': True, 'run_empty': True}
-    if tier == 'quick':
-        for k, spec in enumerate(X.curated_specs()):
-            for targets, workers in ((['T1'], 1), (['T1', 'T2'], 2)):
-                u = X.Universe(spec, targets, workers)
-                jobs.append(
-                    {
-                        'universe': u.to_json(), 'cfg': cfg, 'walk_cfg': wcfg,
-                        'depth': 5, 'cap': 420 if len(targets) == 1 else 900,
-                        'walks': 6, 'walk_len': 7 + (k % 6), 'seed': seed,
-                        'deadline': deadline, 'sample': k in (1, 5) and workers == 2,
-                    }
-                )  # fmt: skip
-    else:
-        specs = X.all_specs(4)
-        for k, spec in enumerate(specs):
-            u = X.Universe(spec, ['T1', 'T2'], 2, init=())
-            jobs.append(
-                {
-                    'universe': u.to_json(), 'cfg': cfg, 'walk_cfg': wcfg,
-                    'depth': 7, 'cap': 2500, 'walks': 12, 'walk_len': 14, 'seed': seed,
-                    'deadline': deadline, 'sample': k in (40, 700),
-                }
-            )  # fmt: skip
-        for k, spec in enumerate(X.curated_specs()):
-            for targets, workers, init in ((['T1'], 1, ()), (['T1', 'T2'], 3, (0,)), (['T1', 'T2'], 1, ())):
-                u = X.Universe(spec, targets, workers, init)
-                jobs.append(
-                    {
-                        'universe': u.to_json(), 'cfg': dict(cfg, timers=True), 'walk_cfg': wcfg,
-                        'depth': 7, 'cap': 6000, 'walks': 20, 'walk_len': 16, 'seed': seed,
-                        'deadline': deadline,
-                    }
-                )  # fmt: skip
-    return jobs
+CFG = {}
+WALK_CFG = {'run_all': True, 'timers': True, 'run_empty': True}
 
 
 def run(tier, seed):
     t0 = time.time()
-    deadline = t0 + (14 if tier == 'quick' else 240)
-    jobs = _jobs(tier, seed, deadline)
-    parts = X.run_parallel(_job, jobs, 1 if tier == 'quick' else 16)
-    res = X.Result()
-    for p in parts:
-        res.merge(p)
-    out = X.finish(
-        PROPERTY, res, Mon,
-        rule='a case is one event applied to the real schedule/farm code; BFS over event sequences (run request '
-        'per algorithm and target, dispatch tick, reply of any in-flight unit with success{},{p},{q},{p,q} / '
-        'failure / invalid) merging equal concrete states, then seeded random histories that also use timer '
-        'events, all-target and empty requests; distinct = distinct (state, event) pairs; non-trivial = the '
-        'event is enabled in a state reached on the real code',
-        exhaustive=False, clauses=CLAUSES,
-    )  # fmt: skip
-    out['wall_s'] = round(time.time() - t0, 2)
-    out['universes'] = len(jobs)
-    return out
+    deadline = t0 + (14 if tier == 'quick' else 230)
+    jobs = X.tier_jobs(tier, seed, deadline, CFG, WALK_CFG)
+    return X.run_tier(PROPERTY, tier, seed, jobs, _job, Mon, X.RULE, CLAUSES, t0)
 
 
 def replay(case):
